@@ -120,6 +120,9 @@ func Power(vs lib.ValidatorSet, signers []int) (total, threshold, signed *big.In
 
 // AllSigners returns 0..n-1.
 func AllSigners(vs lib.ValidatorSet) []int {
+	if vs.ValidatorSet == nil {
+		return nil
+	}
 	out := make([]int, len(vs.ValidatorSet.ValidatorSet))
 	for i := range out {
 		out[i] = i
